@@ -149,7 +149,7 @@ func (p *Prog) Reaches(from, to *ssa.Function) bool {
 				}
 				for _, sc := range p.siteCallees(call) {
 					pk := fnPkg(sc.fn)
-					if pk == nil || !strings.HasPrefix(pk.Path(), modPath) {
+					if pk == nil || !isOurPath(pk.Path()) {
 						continue
 					}
 					if dfs(sc.fn) {
